@@ -354,8 +354,8 @@ func extractOption(nodes map[string]*chanCall, opts ...Option) (map[string][]any
 					optMap[curNodeKey] = append(optMap[curNodeKey], opt.options...)
 				}
 			} else {
-				if curNode.action.optionType != nil {
-					// component
+				if curNode.action.optionType != nil || curNode.action.isPassthrough {
+					// component or passthrough: neither has nodes below it
 					return nil, fmt.Errorf("cannot designate sub path of a component, path:%s", path)
 				}
 				// designate to sub graph's nodes
